@@ -390,3 +390,87 @@ func objOf(info *types.Info, id *ast.Ident) types.Object { return canonObject(in
 
 // paramObjC: paramObj resolved through the helper-boundary aliases (for use in rules).
 func paramObjC(fn *Func, i int) types.Object { return canonObject(paramObj(fn, i)) }
+
+// loopInfo abstracts over the two ways of writing an element loop:
+//
+//	for i, v := range X { … }        and        for i := 0; i < len(X); i++ { v := X[i]; … }
+//
+// Index / Elems are the (canonical) objects of the index variable and of the variables that hold
+// the current element (the range value, or locals defined as X[i] in the body).
+type loopInfo struct {
+	Node  ast.Node
+	Body  *ast.BlockStmt
+	Over  ast.Expr
+	Index types.Object
+	Elems map[types.Object]bool
+}
+
+func asLoop(info *types.Info, n ast.Node) *loopInfo {
+	switch x := n.(type) {
+	case *ast.RangeStmt:
+		li := &loopInfo{Node: x, Body: x.Body, Over: x.X, Elems: map[types.Object]bool{}}
+		if x.Key != nil {
+			li.Index = identObj(info, x.Key)
+		}
+		if x.Value != nil {
+			if o := identObj(info, x.Value); o != nil {
+				li.Elems[o] = true
+			}
+		}
+		li.addBodyElems(info)
+		return li
+	case *ast.ForStmt:
+		li := &loopInfo{Node: x, Body: x.Body, Elems: map[types.Object]bool{}}
+		// i := 0 ; i < len(X) ; i++
+		if as, ok := x.Init.(*ast.AssignStmt); ok && len(as.Lhs) == 1 {
+			li.Index = identObj(info, as.Lhs[0])
+		}
+		if b, ok := unparen(x.Cond).(*ast.BinaryExpr); ok && li.Index != nil && (b.Op == token.LSS || b.Op == token.NEQ) && identObj(info, b.X) == li.Index {
+			if cx, ok := unparen(b.Y).(*ast.CallExpr); ok && len(cx.Args) == 1 {
+				if id, ok := unparen(cx.Fun).(*ast.Ident); ok && id.Name == "len" {
+					li.Over = cx.Args[0]
+				}
+			} else {
+				li.Over = nil
+			}
+		}
+		li.addBodyElems(info)
+		return li
+	}
+	return nil
+}
+
+// addBodyElems: locals defined in the loop body as Over[Index].
+func (li *loopInfo) addBodyElems(info *types.Info) {
+	if li.Over == nil || li.Index == nil {
+		return
+	}
+	over := identObj(info, li.Over)
+	for _, st := range li.Body.List {
+		as, ok := st.(*ast.AssignStmt)
+		if !ok || len(as.Lhs) != len(as.Rhs) {
+			continue
+		}
+		for i, l := range as.Lhs {
+			if ix, ok := unparen(as.Rhs[i]).(*ast.IndexExpr); ok && identObj(info, ix.Index) == li.Index {
+				same := (over != nil && identObj(info, ix.X) == over) || types.ExprString(unparen(ix.X)) == types.ExprString(unparen(li.Over))
+				if same {
+					if o := identObj(info, l); o != nil {
+						li.Elems[o] = true
+					}
+				}
+			}
+		}
+	}
+}
+
+// isElem: e denotes the current element of the loop (the element variable, or Over[Index]).
+func (li *loopInfo) isElem(info *types.Info, e ast.Expr) bool {
+	if o := identObj(info, e); o != nil && li.Elems[o] {
+		return true
+	}
+	if ix, ok := unparen(e).(*ast.IndexExpr); ok && li.Index != nil && identObj(info, ix.Index) == li.Index && li.Over != nil {
+		return types.ExprString(unparen(ix.X)) == types.ExprString(unparen(li.Over))
+	}
+	return false
+}
